@@ -6,6 +6,7 @@ package sim
 import (
 	"fmt"
 	"math/big"
+	"sync/atomic"
 	"time"
 
 	"github.com/bnb-chain/tss-lib/v2/common"
@@ -102,6 +103,8 @@ type Net struct {
 	EmitErrs   []string               // routing problems noticed while resolving recipients
 	PreStart   int                    // deliveries made to a party before its Start
 	CallBudget time.Duration          // watchdog for a single party call (0: DefaultCallBudget)
+	InCall     int32                  // atomically: 1 + index of the node whose Start / Update is running, 0 = none
+	Steps      int64                  // atomically: number of completed steps (for observers on other goroutines)
 }
 
 func (n *Net) nodeByID(id *tss.PartyID) int {
@@ -202,6 +205,7 @@ func (n *Net) Inject(d *Delivery) {
 }
 
 func (n *Net) after(s Step) {
+	atomic.AddInt64(&n.Steps, 1)
 	for _, nd := range n.Nodes {
 		n.drain(nd)
 	}
@@ -239,6 +243,8 @@ func (n *Net) Start(i int) Step {
 	nd := n.Nodes[i]
 	nd.Started = true
 	var err *tss.Error
+	atomic.StoreInt32(&n.InCall, int32(i+1))
+	defer atomic.StoreInt32(&n.InCall, 0)
 	n.guarded(func() string { return fmt.Sprintf("Start() of party %d", i) }, func() { err = nd.P.Start() })
 	if err != nil {
 		nd.StartErr = err
@@ -257,6 +263,7 @@ func (n *Net) doDeliver(d *Delivery, kind StepKind) Step {
 		n.PreStart++
 	}
 	if !nd.Dead {
+		atomic.StoreInt32(&n.InCall, int32(d.To+1))
 		n.guarded(func() string {
 			if d.E == nil {
 				return fmt.Sprintf("Update of party %d with an injected message", d.To)
@@ -275,6 +282,7 @@ func (n *Net) doDeliver(d *Delivery, kind StepKind) Step {
 				ok, err = nd.P.UpdateFromBytes(d.Bytes, d.From, d.Bcast)
 			}
 		})
+		atomic.StoreInt32(&n.InCall, 0)
 	}
 	d.Count++
 	if err != nil {
